@@ -24,27 +24,67 @@ def unprivileged : List IxId := [
   .store_is_token_config_enabled, .store_token_expected_provider, .store_token_feed,
   .store_token_timestamp_adjustment, .store_token_name, .store_token_decimals, .store_token_precision,
   .store_get_market_status, .store_get_market_token_price, .liquidity_provider_calculate_gt_reward,
-  -- owner-or-keeper `close_*`: the policy is `Close::preprocess` (owner, or ORDER_KEEPER after expiry) — C23
-  .store_close_deposit, .store_close_withdrawal, .store_close_order_v2, .store_close_shift,
-  .store_close_glv_deposit, .store_close_glv_withdrawal,
-  -- authority is checked inside the handler against stored addresses
-  .store_claim_fees_from_market,        -- `validate_claim_fees_address(authority)`: the treasury receiver
-  .timelock_approve_instruction, .timelock_approve_instructions,  -- `validate_timelocked_role(ctx, role)` (dynamic role)
-  .treasury_complete_gt_exchange,       -- ownership of the exchange is checked by the store CPI
+  -- the store checks ownership of the exchange in the CPI the handler makes (reviewed, not extracted)
+  .treasury_complete_gt_exchange,
   -- permissionless crank: pays the recorded builder fee to the recorded builder only
   .store_settle_builder_fee,
   -- callbacks: the signer must be the store's callback-authority PDA (`seeds::program = CALLER_PROGRAM_ID`)
   .competition_on_created, .competition_on_updated, .competition_on_executed, .competition_on_closed
 ]
 
-/-- every instruction is allow-listed or guarded -/
-theorem policy_complete : ∀ ix : IxId, unprivileged.contains ix = true ∨ Guarded ix = true := by
+/-- every instruction is allow-listed, guarded by attribute / account constraints, or performs an
+authority check inside its handler (extracted by the translator into `handlerAuth`) -/
+theorem policy_complete : ∀ ix : IxId, unprivileged.contains ix = true ∨ Protected ix = true := by
   intro ix; cases ix <;> decide +kernel
+
+/-- the in-handler authority checks, exactly: the six owner-or-keeper `close_*` (ORDER_KEEPER, only
+for finished actions), `close_glv_shift` (keeper only: it also carries the attribute),
+`claim_fees_from_market` (treasury receiver), `approve_instruction(s)` (timelocked role) -/
+theorem handler_auth_table :
+    ∀ ix : IxId, handlerAuth ix =
+      (if [IxId.store_close_deposit, .store_close_withdrawal, .store_close_order_v2, .store_close_shift,
+           .store_close_glv_deposit, .store_close_glv_withdrawal].contains ix then .closeOwnerOrKeeper .ORDER_KEEPER false
+       else if ix = .store_close_glv_shift then .closeOwnerOrKeeper .ORDER_KEEPER true
+       else if ix = .store_claim_fees_from_market then .treasuryReceiver
+       else if ix = .timelock_approve_instruction ∨ ix = .timelock_approve_instructions then .timelockedRole
+       else .none) := by
+  intro ix; cases ix <;> decide +kernel
+
+/-- an instruction relying ONLY on its in-handler check (no attribute, no owner-bound account) is one
+of the nine reviewed ones -/
+theorem handler_only_instructions :
+    ∀ ix : IxId, Guarded ix = false → handlerAuth ix ≠ .none →
+      [IxId.store_close_deposit, .store_close_withdrawal, .store_close_order_v2, .store_close_shift,
+       .store_close_glv_deposit, .store_close_glv_withdrawal, .store_claim_fees_from_market,
+       .timelock_approve_instruction, .timelock_approve_instructions].contains ix = true := by
+  intro ix; cases ix <;> decide +kernel
+
+/-- the keeper role of every owner-or-keeper close is the one its own docs name -/
+theorem close_keeper_role_documented :
+    ∀ ix : IxId, (match handlerAuth ix with
+      | .closeOwnerOrKeeper r _ => (info ix).docRoles.contains r
+      | _ => true) = true := by
+  intro ix; cases ix <;> decide +kernel
+
+/-- `Close::preprocess`: a caller that neither owns the action nor holds the keeper role is rejected;
+a keeper may close only finished actions (unless the implementation skips that check); the owner
+always may -/
+theorem close_policy (isOwner hasRole skip completed : Bool) :
+    (isOwner = false → hasRole = false → closeAllowed isOwner hasRole skip completed = false) ∧
+    (isOwner = false → skip = false → completed = false → closeAllowed isOwner hasRole skip completed = false) ∧
+    (isOwner = true → closeAllowed isOwner hasRole skip completed = true) ∧
+    (hasRole = true → completed = true → closeAllowed isOwner hasRole skip completed = true) := by
+  cases isOwner <;> cases hasRole <;> cases skip <;> cases completed <;> decide
+
+/-- a stranger (no role at all, owner of nothing, not the receiver) fails every in-handler check -/
+theorem stranger_fails_handler_checks (ix : IxId) (completed : Bool) (h : handlerAuth ix ≠ .none) :
+    handlerAuthOk ⟨fun _ => false, false, false, false⟩ completed (handlerAuth ix) = false := by
+  cases ix <;> first | exact absurd rfl h | (cases completed <;> rfl)
 
 /-- the allow-list hides nothing: no entry carries an attribute (those are guarded anyway), entries
 are distinct, and none of them calls an `unchecked_*` handler -/
 theorem allowlist_is_tight :
-    (∀ ix ∈ unprivileged, (info ix).attr = none ∧ (info ix).callsUnchecked = false) ∧ unprivileged.Nodup := by
+    (∀ ix ∈ unprivileged, (info ix).attr = none ∧ (info ix).callsUnchecked = false ∧ handlerAuth ix = .none) ∧ unprivileged.Nodup := by
   decide +kernel
 
 /-- the repo's naming convention: a handler named `unchecked_*` / `*_unchecked` does no permission
